@@ -13,6 +13,8 @@ import NodisVerif.Proofs.SkiplistFuel
 import NodisVerif.Proofs.SkiplistSpansRun
 import NodisVerif.Proofs.SkiplistZSet
 import NodisVerif.Proofs.SkiplistHeader
+import NodisVerif.Proofs.SkiplistZHeader
+import NodisVerif.Proofs.SkiplistZRange
 /-
   C04 — sorted sets stay ordered by (score, member); rank, range and score agree.
 
@@ -782,15 +784,42 @@ theorem skiplist_zRank_refines (p : Skiplist.PZSet) (h : Skiplist.PZInv p) (m : 
     Skiplist.pzRank p m = .ok (zRank p.toZSet m) ∧ Skiplist.pzRevRank p m = .ok (zRevRank p.toZSet m) :=
   ⟨Skiplist.pzRank_refines h m, Skiplist.pzRevRank_refines h m⟩
 
-/-- any finite sequence of these operations from the empty sorted set: no panic, no fuel exhaustion, the pointer
-    structure satisfies `Skiplist.Inv`, (dictionary, chain) satisfies the list-level invariant of section 1 and is
-    exactly the state the list-level model reaches, with the same replies; also for every prefix of the sequence.
-    Through this theorem sections 1–11 (stated on `ZSet`) hold of the chain of the pointer structure. -/
+/-- ZRANGE / ZREVRANGE on the pointer structure (start node by `getByRank` through the spans, or tail / first node; then
+    `forward` / `backward` pointer steps) = the list-level `forEachByRank`, INCLUDING the nil dereferences: the pointer
+    code panics exactly where the list-level model says `none` (finding A-41), and it returns the header's item exactly
+    where the list-level model returns the phantom member (finding A-41b) -/
+theorem skiplist_zRange_refines (p : Skiplist.PZSet) (h : Skiplist.PZInv p) (hh : Skiplist.HeaderOk p.sl)
+    (start stop : Int) (desc : Bool) :
+    Skiplist.pzForEachByRank p start stop desc =
+      (match forEachByRank p.toZSet start stop desc with | some l => .ok l | none => .error .panic) :=
+  Skiplist.pzForEachByRank_refines h hh start stop desc
+
+theorem skiplist_zCount_refines (p : Skiplist.PZSet) (h : Skiplist.PZInv p) (hh : Skiplist.HeaderOk p.sl)
+    (min max : F64) (mode : Nat) :
+    Skiplist.pzCount p min max mode =
+      (match zCount p.toZSet min max mode with | some n => .ok n | none => .error .panic) :=
+  Skiplist.pzCount_refines h hh min max mode
+
+/-- ZRANGEBYSCORE / ZREVRANGEBYSCORE on the pointer structure (`getFirstInRange` / `getLastInRange`, then pointer steps)
+    = the list-level `rangeByScore`: never a panic, never out of fuel; every bound (also NaN: with a NaN `max` the
+    descending walk starts on the header, F-A1, and stops at once), both mode bits, offset, limit -/
+theorem skiplist_zRangeByScore_refines (p : Skiplist.PZSet) (h : Skiplist.PZInv p) (hh : Skiplist.HeaderOk p.sl)
+    (min max : F64) (offset limit : Int) (desc : Bool) (mode : Nat) :
+    Skiplist.pzRangeByScore p min max offset limit desc mode =
+      .ok (rangeByScore p.toZSet min max offset limit desc mode) :=
+  Skiplist.pzRangeByScore_refines h hh min max offset limit desc mode
+
+/-- any finite sequence of the mutating operations from the empty sorted set: no panic, no fuel exhaustion, the pointer
+    structure satisfies `Skiplist.Inv` and `HeaderOk`, (dictionary, chain) satisfies the list-level invariant of section 1
+    and is exactly the state the list-level model reaches, with the same replies; also for every prefix of the sequence.
+    With the three theorems above (which need exactly `PZInv` and `HeaderOk`) every ordered query in every reachable
+    state answers as the list-level model does: through this theorem sections 1–11 (stated on `ZSet`) hold of the
+    pointer structure. -/
 theorem skiplist_zset_run (ops : List Skiplist.PZOp) (hok : ∀ op ∈ ops, Skiplist.PZOpOk op) (k : Nat) :
-    ∃ p rs, Skiplist.pzRun Skiplist.PZSet.empty (ops.take k) = .ok (p, rs) ∧ Skiplist.Inv p.sl ∧
-      Proofs.C04.Inv p.toZSet ∧ p.toZSet.WF ∧ (p.toZSet, rs) = Skiplist.zRun DsZSet.empty (ops.take k) := by
-  obtain ⟨p, rs, he, hi, hz, ha⟩ := Skiplist.pz_run_prefix ops hok k
-  exact ⟨p, rs, he, hi, hz, hz.toWF, ha⟩
+    ∃ p rs, Skiplist.pzRun Skiplist.PZSet.empty (ops.take k) = .ok (p, rs) ∧ Skiplist.PZInv p ∧
+      Skiplist.HeaderOk p.sl ∧ p.toZSet.WF ∧ (p.toZSet, rs) = Skiplist.zRun DsZSet.empty (ops.take k) := by
+  obtain ⟨p, rs, he, hi, hz, hh, ha⟩ := Skiplist.pz_run_full_prefix ops hok k
+  exact ⟨p, rs, he, ⟨hi, hz⟩, hh, hz.toWF, ha⟩
 
 example : (∀ op ∈ [Skiplist.PZOp.add [97] 0x3FF0000000000000 2, .add [98] 0x4000000000000000 16, .add [97] 0x4008000000000000 1,
       .rank [97] false, .remRangeByRank 0 0], Skiplist.PZOpOk op) := by
